@@ -267,4 +267,85 @@ def runFunding (W U adj : Nat) (p : FundingParams) (st : FundingState) : List Fu
   | [] => st
   | x :: xs => runFunding W U adj p (stepFunding W U adj p st x) xs
 
+/-! ### funding of ONE collateral token over histories (C08 `funding_backed`)
+
+Positions pay funding in their own collateral token and receive claimable funding in both
+tokens. For a fixed collateral token `k`: a position is `(isLong, hasCollK, size, f, c)` where `f`
+snapshots the funding index of `(side, k)` (meaningful if `hasCollK`) and `c` the claimable index of
+`(side, k)`. -/
+
+structure FPos where
+  isLong : Bool
+  hasCollK : Bool
+  size : Nat
+  f : Nat
+  c : Nat
+  deriving Repr, DecidableEq
+
+structure FundSys where
+  /-- funding amount per size of `(side, k)` -/
+  F : Bool → Nat
+  /-- claimable funding amount per size of `(side, k)` -/
+  C : Bool → Nat
+  pos : List FPos
+  collected : Nat
+  claimed : Nat
+
+inductive FundOp where
+  /-- a funding update in which side `lps` pays; `fv` is the funding value attributed to
+  collateral token `k`, `price` its max price -/
+  | update (lps : Bool) (fv price : Nat)
+  /-- position `i` is touched: its pending funding fee is paid in full, its claimable amount is
+  credited, its snapshots are refreshed and its size may change (increase / decrease / close) -/
+  | settle (i : Nat) (newSize : Nat)
+  /-- a new position -/
+  | openPos (isLong hasCollK : Bool)
+
+def oiPayK (ps : List FPos) (side : Bool) : Nat :=
+  match ps with
+  | [] => 0
+  | p :: rest => (if p.isLong = side ∧ p.hasCollK = true then p.size else 0) + oiPayK rest side
+
+def oiSide (ps : List FPos) (side : Bool) : Nat :=
+  match ps with
+  | [] => 0
+  | p :: rest => (if p.isLong = side then p.size else 0) + oiSide rest side
+
+/-- one step; an operation that cannot be computed (overflow, zero price) or an insufficient
+payment is not part of these histories: the state is left unchanged. -/
+def FundSys.step (W U adj : Nat) (s : FundSys) : FundOp → FundSys
+  | .update lps fv price =>
+    let oiP := oiPayK s.pos lps
+    if oiP = 0 then s else
+    match packFunding W U adj fv oiP price true, packFunding W U adj fv (oiSide s.pos (!lps)) price false with
+    | some dF, some dC =>
+      { s with F := fun b => if b = lps then s.F b + dF else s.F b,
+               C := fun b => if b = (!lps) then s.C b + dC else s.C b }
+    | _, _ => s
+  | .settle i newSize =>
+    match s.pos[i]? with
+    | none => s
+    | some p =>
+      let pay := if p.hasCollK then unpackFunding W U adj (s.F p.isLong) p.f p.size true else some 0
+      match pay, unpackFunding W U adj (s.C p.isLong) p.c p.size false with
+      | some a, some b =>
+        { s with collected := s.collected + a, claimed := s.claimed + b,
+                 pos := s.pos.set i { p with size := newSize, f := s.F p.isLong, c := s.C p.isLong } }
+      | _, _ => s
+  | .openPos il hk => { s with pos := s.pos ++ [{ isLong := il, hasCollK := hk, size := 0, f := s.F il, c := s.C il }] }
+
+def FundSys.run (W U adj : Nat) (s : FundSys) : List FundOp → FundSys
+  | [] => s
+  | o :: os => FundSys.run W U adj (s.step W U adj o) os
+
+/-- Σ size·(F − f) over the paying-capable positions (scaled pending payable). -/
+def pendPay (F : Bool → Nat) : List FPos → Nat
+  | [] => 0
+  | p :: rest => (if p.hasCollK then p.size * (F p.isLong - p.f) else 0) + pendPay F rest
+
+/-- Σ size·(C − c) over all positions (scaled pending claimable). -/
+def pendClaim (C : Bool → Nat) : List FPos → Nat
+  | [] => 0
+  | p :: rest => p.size * (C p.isLong - p.c) + pendClaim C rest
+
 end Gmx
